@@ -162,6 +162,7 @@ def run_cases(lines, profile="debug", timeout=900):
     order_ids = [l.split("|", 1)[0] for l in lines]
     pending = list(lines)
     guard = 0
+    hangs = 0
     while pending and guard < 50:
         guard += 1
         p = subprocess.run([harness_bin(profile), "level", MODELRUN], input="\n".join(pending) + "\n",
@@ -189,6 +190,9 @@ def run_cases(lines, profile="debug", timeout=900):
         if p.returncode == 3 and hung is not None:
             k = [i for i, l in enumerate(pending) if l.split("|", 1)[0] == hung][0]
             pending = pending[k + 1:]
+            hangs += 1
+            if hangs >= 3:
+                break          # three calls that never returned are evidence enough; do not wait for more
         else:
             break
     return [recs[c] for c in order_ids if c in recs]
